@@ -820,4 +820,13 @@ theorem tie_fields :
 theorem tie_prefixReg (g : String) (r : Reg) :
     (prefixReg g r).1 = r.1 ∧ (prefixReg g r).2.1 = joinGo g r.2.1 ∧ (prefixReg g r).2.2 = r.2.2 := ⟨rfl, rfl, rfl⟩
 
+/-- **`validateSecret`** (model `RouteOpt.panics`): `WithJwt` / `WithJwtTransition` validate the CURRENT secret only, the
+option panics iff it is shorter than 8 bytes. -/
+theorem tie_validateSecret (s prev : String) :
+    condSecretTooShort s.utf8ByteSize = (RouteOpt.jwt s).panics ∧
+    condSecretTooShort s.utf8ByteSize = (RouteOpt.jwtTransition s prev).panics ∧
+    validateSecretStmts = ["if len(secret) < 8 {", "panic(\"secret's length can't be less than 8\")", "}"] ∧
+    withJwtCalls = [("validateSecret", ["secret"])] ∧ withJwtTransitionCalls = [("validateSecret", ["secret"])] :=
+  ⟨rfl, rfl, rfl, rfl, rfl⟩
+
 end GoZero.C09.Tie
